@@ -105,7 +105,7 @@ Proof. cbn zeta. split; [prove_layer_ok | vm_compute; reflexivity]. Qed.
     delivered override replaces what earlier layers contributed, exactly like a written one. *)
 Theorem C10_overrides_delivered_by_references_replace_like_written_ones :
   forall f F ys ys' m r,
-    Forall clean_layer ys -> ys' <> [] -> Forall layer_ok ys' ->
+    Forall sclean_layer ys -> ys' <> [] -> Forall layer_ok ys' ->
     merge_layers_try ys = Ok m -> Forall2 (ytw m) ys ys' ->
     render_with_self F (VMap m) = Ok r ->
     match deep_merge (S f) ys' with
@@ -123,12 +123,12 @@ Example C10_delivered_override_nonvacuous :
                   (YStr "target", YMap [(YStr "b", YMap [(YStr "x", YNum (NInt 1%Z))]); (YStr "o", YNum (NInt 0%Z))])] in
   let ys := [l1; YMap [(YStr "target", YStr "${tmpl}")]] in
   let ys' := [l1; YMap [(YStr "target", YMap [(YStr "~b", YStr "s")])]] in
-  Forall clean_layer ys /\ Forall layer_ok ys' /\
+  Forall sclean_layer ys /\ Forall layer_ok ys' /\
   exists m r, merge_layers_try ys = Ok m /\ Forall2 (ytw m) ys ys' /\ render_with_self 60 (VMap m) = Ok r /\
               deep_merge 10 ys' = SOk (unflag r) /\
               lookup ["target"; "b"] (unflag r) = Some (VLit "s").
 Proof.
-  cbn zeta. split; [prove_layer_ok|]. split; [prove_layer_ok|].
+  cbn zeta. split; [eapply Forall_impl; [intros y0; apply clean_layer_sclean | prove_layer_ok]|]. split; [prove_layer_ok|].
   eexists. eexists. split; [vm_compute; reflexivity|]. split.
   - constructor; [apply ytw_refl|]. constructor; [|constructor].
     apply ytw_map_iff. eexists. split; [reflexivity|]. constructor; [|constructor]. split; [reflexivity|]. cbn [snd].
